@@ -11,7 +11,7 @@
      known_classb cfg known finding `entry_at_wildcard_prefix`: two keys K and K.<any>.R (see Refuted/C17.v);
      wf_pathb p       module path segments contain no '.' and none is literally '<any>'.
    Without them the statements are false of the code: coq/Refuted/C17.v. *)
-From Coq Require Import List NArith Bool.
+From Coq Require Import List NArith Bool Permutation.
 From DesVerif Require Import Props.Spec Props.Model Props.Loops Props.Main Props.Typed Props.SpecExec.
 Import ListNotations.
 Open Scope N_scope.
@@ -56,12 +56,36 @@ Theorem C17_sibling_not_addressed : forall k q r0 p,
 Proof. exact sibling_not_addressed. Qed.
 Print Assumptions C17_sibling_not_addressed.
 
-(* including the configuration before, between or after the node creations gives every module
-   exactly the property set of a direct capture for its path (any configuration value, any paths) *)
-Theorem C17_include_order_irrelevant : forall (c : cfg) (paths : list (list str)) (k : nat),
-  modules (build sim_new c k false paths) = map (fun q => (q, capture_for_into c q)) paths.
+(* However the entries are partitioned into separate includes and wherever each include_cfg call sits in the
+   node-creation sequence (before all nodes, between two, after all): every module ends up with exactly the
+   capture, in turn, of all configurations in the order they were included - the same for a node created before,
+   between or after them (any configuration values, any paths, any schedule) ... *)
+Theorem C17_include_order_irrelevant : forall (sched : list (nat * cfg)) (paths : list (list str)),
+  modules (build sim_new sched 0 paths) =
+  map (fun q => (q, capture_all (map snd (time_order sched 0 (length paths))) q)) paths.
 Proof. exact include_order_irrelevant. Qed.
 Print Assumptions C17_include_order_irrelevant.
+
+(* ... that order being a rearrangement of the schedule (nothing lost, nothing included twice) ... *)
+Theorem C17_time_order_perm : forall k sched i, Permutation (time_order sched i k) sched.
+Proof. exact time_order_perm. Qed.
+Print Assumptions C17_time_order_perm.
+
+(* ... and capturing several configurations in turn gives exactly the properties the specification lists for
+   the UNION of their entries, whatever the order (first set wins: the value is that of some matching entry) *)
+Theorem C17_multi_capture_sound : forall groups p name e,
+  Forall guarded groups -> wf_pathb p = true ->
+  In (name, e) (capture_all (map cfg_new groups) p) ->
+  exists v, e = EYaml (Scalar v) /\ receives (concat groups) p name v.
+Proof. exact multi_capture_sound. Qed.
+Print Assumptions C17_multi_capture_sound.
+
+Theorem C17_multi_capture_complete : forall groups p name v,
+  Forall guarded groups -> wf_pathb p = true ->
+  receives (concat groups) p name v ->
+  exists v', In (name, EYaml (Scalar v')) (capture_all (map cfg_new groups) p) /\ receives (concat groups) p name v'.
+Proof. exact multi_capture_complete. Qed.
+Print Assumptions C17_multi_capture_complete.
 
 (* once a property holds a value of type t, every sequence of typed reads / writes / raw reads
    answers like a cell of type t: accesses with another type are the InvalidInput error and change nothing *)
@@ -133,6 +157,17 @@ Example C17_nonvacuous :
   spec_capture demo [alice] = [([97;100;100;114], 1); ([108;111;103], 4)] /\
   spec_capture demo [alice; [116;99;112]] = [([120], 3); ([116;99;112;46;109;115;115], 5)].
 Proof. vm_compute. repeat split; reflexivity. Qed.
+
+(* two includes whose wildcard entries share the text in front of '<any>' (`alice.<any>.`), the second one
+   scheduled before node 0 and the first before node 1: the node alice.tcp, created after both, gets both *)
+Definition k_alice_any_log : str := alice ++ [46] ++ ANY ++ [46; 108; 111; 103].   (* alice.<any>.log *)
+Definition k_alice_any_mtu : str := alice ++ [46] ++ ANY ++ [46; 109; 116; 117].   (* alice.<any>.mtu *)
+Example C17_nonvacuous_multi :
+  map (fun mp => sort_props (snd mp))
+      (modules (build sim_new [(1%nat, cfg_new [(k_alice_any_log, 1)]); (0%nat, cfg_new [(k_alice_any_mtu, 2)])] 0
+                      [[alice]; [alice; [116;99;112]]]))
+  = [[]; [([108;111;103], EYaml (Scalar 1)); ([109;116;117], EYaml (Scalar 2))]].
+Proof. vm_compute. reflexivity. Qed.
 
 (* a late run on module alice: addr is read as u64, a configuration `alice.addr: 300` arrives, addr is re-read
    as String (type mismatch) and as u64 (still 1); `level` is written as i64 3 before `<any>.level: 300`
